@@ -445,6 +445,18 @@ def generate(rng, tier):
         bits = int(1.6 * n) - rng.randrange(0, 3)
         yield Case("u.nthroot", [hx((1 << (bits - 1)) + rng.getrandbits(bits - 2)), dec(n)])
         yield Case("i.nthroot", [hx(-((1 << (bits - 1)) + rng.getrandbits(bits - 2))), dec(n + 1 - n % 2)])
+    # ---- E1: extreme values of the only machine-integer parameter of the property's public ops, `nth_root(n: usize)`:
+    # n at and around every power-of-two boundary of usize (2^16, 2^31, 2^32, 2^63, usize::MAX) x radicands {0, 1, 2, 3,
+    # one word, word boundary, 3 words, ~3000 bits} x {UBig, IBig of both signs (odd n: negative root, even n: panic)}
+    # (`bits <= n` shortcut with n far above every bit length; `n as u32`-style truncations would show up here)
+    ext_n = [(1 << 16) - 1, 1 << 16, (1 << 31) - 1, 1 << 31, (1 << 31) + 1, (1 << 32) - 1, 1 << 32, (1 << 32) + 1, (1 << 32) + 2,
+             (1 << 32) + 3, (1 << 33) + 5, (1 << 63) - 1, 1 << 63, (1 << 63) + 1, (1 << 64) - 2, (1 << 64) - 1]
+    ext_x = [0, 1, 2, 3, 8, (1 << 63) + 5, (1 << 64) - 1, 1 << 64, (1 << 128) - 1, (1 << 191) + 12345]
+    for n in ext_n:
+        xs = ext_x + [rng.getrandbits(3000) | (1 << 2999), nat_pattern(rng, rng.choice([1, 2, 3, 5]), rng.choice(PATTERNS))]
+        for x in (xs if not q else rng.sample(xs, 5) + [0, 1]):
+            yield Case("u.nthroot", [hx(x), dec(n)])
+            yield Case("i.nthroot", [hx(signed(rng, x)), dec(n)])
     # ---- perfect powers +-1 over every magnitude of the root, every width; base^e +-1 for every e
     for c in power_sweep(rng, tier):
         yield c
@@ -594,13 +606,14 @@ REFINED = ["gcd_ops.rs dispatch (gcd / gcd_ext over inline/heap operands) and IB
            "integer/src/root.rs sqrt_rem_42 (word-assembled r0 = (r1*B + b1)/2, q >= B reduction, u << 1 | (a[1] & 1), overflowing_sub / overflowing_add carries): mirrored, executed, proved on every normalised 4-word value for every word size >= 2 (sqrt_rem_42_correct)",
            "sqrt_rem_large over the mirrored kernel = sqrt_rem_large over the specification on every operand above two words (sqrt_rem_kernel_eq_spec, sqrt_rem_mirrored_spec, nth_root_mirrored_eq)",
            "base ring/root.rs fix_sqrt_error! / fix_cbrt_error! (the correction loops every table/Newton routine ends in): sound for every width and every start value (fix_sqrt_error_sound, fix_cbrt_error_sound)",
-           "base ring/root.rs normalized_sqrt_rem / normalized_cbrt_rem of u16, u32, u64 (RSQRT_TAB / RCBRT_TAB lookup, Newton steps in wrapping/checked u16/u32 arithmetic, saturating_mul), u128 normalized_sqrt_rem (Karatsuba step over the u64 routine, operands bit-packed with KBITS = 32, q >= B reduction, wrapping_sub / overflowing_add carries) and the sqrt_rem / cbrt_rem / sqrt / cbrt wrappers (even / multiple-of-3 normalising shift, de-normalisation, remainder recomputation) of u8..u128: mirrored with checked arithmetic, executed by the driver; SOUND on every value of the type — whatever is returned without arithmetic overflow is the floor root and the remainder (prim_sqrt_rem_sound, prim_cbrt_rem_sound); u8 and u16 also TOTAL and exact on every value by kernel evaluation (prim_root_u8_total, prim_root_u16_total); tables compared with the source text on every run (tab.rsqrt, tab.rcbrt)",
+           "base ring/root.rs normalized_sqrt_rem / normalized_cbrt_rem of u16, u32, u64 (RSQRT_TAB / RCBRT_TAB lookup, Newton steps in wrapping/checked u16/u32 arithmetic, saturating_mul), u128 normalized_sqrt_rem (Karatsuba step over the u64 routine, operands bit-packed with KBITS = 32, q >= B reduction, wrapping_sub / overflowing_add carries), u128 normalized_cbrt_rem (B = 2^22 cube-root step over the u64 routine: both branches of the high part, div_rem by 3*c1^2, signed remainder, `while r < 0` descent) and the sqrt_rem / cbrt_rem / sqrt / cbrt wrappers (even / multiple-of-3 normalising shift, de-normalisation, remainder recomputation) of u8..u128: mirrored with checked arithmetic, executed by the driver; SOUND on every value of every type u8..u128 — whatever is returned without arithmetic overflow is the floor root and the remainder (prim_sqrt_rem_sound, prim_cbrt_rem_sound incl. u128 since round 5, cbrt_karatsuba_step); u8, u16 and (round 5) u32 also TOTAL and exact on every value: no + - * of the table / Newton stages overflows and every estimate is an under-estimate (prim_root_u8_total, prim_root_u16_total by kernel evaluation of every value; prim_root_u32_total by an interval argument — the cube-root estimate reads only the top 16 bits, in the square root the low 16 bits enter only through b = wmul32_hi(self, r^3) >> 11 (at most two values per top half) and e = self - s^2, and a checker decides a whole operand interval at once; the kernel evaluates it for the 49152 + 57344 normalised top halves); prim_sqrt_u32_exact",
+           "TIE A (round 5): RSQRT_TAB, RCBRT_TAB, LOG2_TAB, the table index offsets (- 32, - 8), the under-estimate margins ((s - 1) as u8, s -= 4, r - 10, s -= 10, r - 1) and KBITS of the two u128 steps are regenerated from base/src/ring/root.rs / base/src/math/log.rs on every run (vlib/extract_roottabs.py -> Gen/RootTables.lean); root_tables_regenerated proves the model's tables equal to them and every estimate stage of the model (u16, u32, u64; sqrt and cbrt) equal to the same stage over the regenerated table / offset / margin — a change of a table entry or margin in the source breaks the build of Props/C12 (tables are additionally compared at run time: tab.rsqrt, tab.rcbrt, tab.log2)",
            "log_dword / log_word_base / log_large correction loops for any admissible first guess", "UBig::remove (squaring tower up, then down)",
            "IBig::nth_root / sqrt / cbrt sign rules and panics",
            "no_std table estimator log2_fp8 / ceil_log2_fp8 over all u16, the u8 powering cases and the top-16-bit + shift lifting to wider integers (integer-level enclosure theorems by kernel evaluation)"]
 FRONTIER = ["gcd_ext_in_place buffer-length claims, what is left: the word loops inside lehmer_ext_step / add_signed_mul are modelled at value level (their results a*t0 + b*t1, c*t0 + d*t1, t0 + q*t1 are the next coefficients, proved <= lhs; the partial sums inside the in-place loops are not separately bounded) and the claim is proved at the exit of the main loop and for the returned |b|, not restated for every intermediate iteration (the invariant t1*x + t0*y = lhs is inductive, so it holds there too)",
-            "base ring/root.rs u32 / u64 Newton estimate stages and the u128 sqrt step: TOTALITY (no arithmetic overflow, i.e. the estimate is an under-estimate that fits) is not proved above u16 — the routines are mirrored and executed with checked arithmetic (an overflow would print as `panic ArithmeticOverflow` and disagree with the real code), and their answers are proved to be the floor root whenever they answer (prim_sqrt_rem_sound incl. u128, prim_cbrt_rem_sound up to u64). `sqrt_rem_driver_spec` states sqrt_rem exactly as the driver runs it for the 64-bit word with this totality of the u64 / u128 routines as its ONLY hypothesis",
-            "base ring/root.rs u128 normalized_cbrt_rem (B = 2^22 cube-root step over the u64 routine + `while r < 0` descent): mirrored and executed (Tie B compares the real code with the mirrored algorithm on boundary / dense-run classes), no theorem; the floor-root relation is evaluated beside every result",
+            "base ring/root.rs u64 Newton estimate stages (sqrt: three Newton steps on 1/sqrt(n) with s -= 10; cbrt: two steps with r - 1) and, through them, the u128 sqrt / cbrt steps: TOTALITY (no arithmetic overflow, i.e. the estimate is an under-estimate that fits) is proved for u8, u16, u32 (prim_root_u32_total, round 5) but NOT for u64 / u128: the interval argument used for u32 needs one kernel evaluation per value of the top half (2^32 of them for u64), and a coarser subdivision does not work because the safety margin (10 units in 2^32) is far below what interval arithmetic over a block of operands can resolve — it needs the analytic error recurrence of the Newton steps (quadratic convergence with the truncation errors of each wmul32_hi), which is not done. The routines are mirrored and executed with checked arithmetic (an overflow would print as `panic ArithmeticOverflow` and disagree with the real code), and their answers are proved to be the floor root whenever they answer (prim_sqrt_rem_sound, prim_cbrt_rem_sound, all widths incl. u128). `sqrt_rem_driver_spec` states sqrt_rem exactly as the driver runs it for the 64-bit word with this totality of the u64 / u128 routines as its ONLY hypothesis",
+            "the under-estimate margins and KBITS of the u128 steps inside Model/NT/PrimRoot.lean normSqrtU128 / normCbrtU128 (2^31, 2^33, 2^22, 2^44 shifts) are hand-written from KBITS = 32 / 22; the regenerated KBITS values are pinned (root_tables_regenerated) but the derived shift amounts are not regenerated as text",
             "f32 log2 first guesses of ilog: a parameter with the hypothesis the code asserts (base^est <= x)",
             "log2_bounds (std build, libm log2f): no theorem; the harness echoes the implementation's own bounds and the driver decides lb <= log2(x) <= ub exactly (certified interval squaring / exact powering) on every call — bit patterns are NOT compared, so a different valid estimator is accepted",
             "f32 arithmetic of the estimators (x/256, + shift, next_up/next_down, *(1 +- 2^-22)): covered by the per-call enclosure check only"]
@@ -616,23 +629,23 @@ RULE = ("gcd pairs from {0/0, one zero, equal, common factor x cofactor size cla
         "log2_bounds of UBig/IBig/FBig<2>/DBig/RBig/Relaxed/u8..u128 incl. values next to 1 and exact powers of two, f32/f64 by bit pattern "
         "(specials, subnormals, sampled/all exponents x boundary mantissas); the same through a harness built WITHOUT the std feature "
         "(table estimator: all u8, u16 blocks, u32..u128 with top-16-bit boundary patterns, UBig, f32/f64); primitives: "
-        "exhaustive u8 (sqrt, cbrt, log2 bounds, gcd rows) and u16 (all in thorough, sampled blocks in quick), boundary + random above; RSQRT_TAB / RCBRT_TAB / LOG2_TAB read from the source text. "
+        "E1: nth_root(n: usize) with n at / around 2^16, 2^31, 2^32, 2^63, usize::MAX x radicands {0, 1, 2, 3, 8, word / dword / 3-word boundaries, ~3000 bits} x UBig / IBig of both signs; exhaustive u8 (sqrt, cbrt, log2 bounds, gcd rows) and u16 (all in thorough, sampled blocks in quick), boundary + random above; RSQRT_TAB / RCBRT_TAB / LOG2_TAB read from the source text. "
         "Non-trivial := an operand above two words or a primitive sweep; distinct := distinct (op,args) lines.")
 EXPLANATION = ("Lean theorems: gcd dispatch = Nat.gcd with the GcdZeroZero panic; Bezout identity of gcd_ext through word/dword recovery and the "
                "multi-word post-processing (exact division); the mirrored Lehmer loops gcd_in_place and gcd_ext_in_place always return and are "
                "correct (no assumed kernel in gcd or gcd_ext): cofactor matrix has determinant 1, committed steps never go negative, x+y decreases, "
                "coefficients satisfy x = -+t0*rhs, y = +-t1*rhs (mod lhs); Newton nth_root ends at the floor root; Zimmermann's Karatsuba square root "
                "(sqrt_rem, sqrt_rem_42) mirrored with all carries returns root, remainder and remainder carry on every normalised input, so sqrt_rem_large over it "
-               "equals sqrt_rem_large over the floor square root; sqrt_rem_large de-normalisation is exact; the primitive table/Newton roots are sound (fix loops) and, for u8/u16, total; "
+               "equals sqrt_rem_large over the floor square root; sqrt_rem_large de-normalisation is exact; the primitive table/Newton roots are sound for every width (fix loops; the u128 Karatsuba square-root and B = 2^22 cube-root steps) and, for u8/u16/u32, total (never overflow); their tables and margins are the regenerated ones; "
                "ilog correction loops end at floor(log) for any admissible first guess; remove returns the exact multiplicity. "
                "log2_bounds enclosure is decided exactly per call by certified interval squaring / exact powering in the driver.")
 ASSUMPTIONS = ["mul/div/pow of UBig used inside nth_root, ilog and remove, and div_rem_in_place / sqr inside root::sqrt_rem, are exact (C01, C02)",
-               "the u32/u64 Newton estimates and the u128 sqrt step of dashu-base never overflow (they are proved sound; totality is proved up to u16), and the u128 cube-root step meets its contract (mirrored and correspondence-checked, not proved; everything returned is checked against the floor-root relation per call)"]
+               "the u64 Newton estimates and the u128 sqrt / cbrt steps of dashu-base never overflow (all primitive roots u8..u128 are proved sound; totality is proved for u8, u16, u32; for u64 / u128 an overflow would show as a correspondence disagreement and everything returned is checked against the floor-root relation per call)"]
 LEVEL_TEXT = ("Machine-checked Lean 4 theorems over an executable model of gcd/gcd_ext dispatch and Bezout recovery, the Lehmer cofactor "
               "step and the complete multi-word Lehmer loops (gcd and extended gcd, proved to return and to be correct), the Newton nth-root iteration, "
               "Zimmermann's Karatsuba square root sqrt_rem / sqrt_rem_42 mirrored with every carry and proved for all lengths, sqrt_rem_large (de)normalisation, "
-              "the primitive roots' correction loops and wrappers (sound for u8..u64, total for u8/u16), the ilog correction loops and remove; "
-              "the u32/u64/u128 primitive square roots are proved sound, their totality (no overflow) above u16 and the u128 cube-root step are mirrored and executed but not proved. The model is "
+              "the primitive table/Newton roots and wrappers (sound for u8..u128 incl. the u128 cube-root step, total for u8/u16/u32; tables and margins regenerated from the source, Tie A), the ilog correction loops and remove; "
+              "totality (no overflow) of the u64 Newton stages and of the u128 steps built on them is mirrored and executed but not proved. The model is "
               "tied to /repo on every run by differential execution over structured operands (perfect powers +-1, size-class "
               "boundaries, quotient overflow, the Karatsuba q = B arm, exhaustive u8/u16) and by reading the lookup tables from the source; log2 bounds are echoed from the implementation and their enclosure of the true "
               "logarithm is decided with exact integer arithmetic on every call.")
@@ -647,5 +660,6 @@ THEOREMS = ["Dashu.Props.C12." + t for t in ["gcd_prim_spec", "trailing_zeros_or
             "log2_table_sound", "log2_u8_table_sound", "log2_wide_table_sound", "nth_root_zero_asIs_counterexample", "sqrt_rem_asIs_counterexample", "ibig_cbrt_asIs_counterexample",
             "ilog_zero_asIs_counterexample", "gcd_ext_post_precondition_counterexample",
             "zimmermann_step", "sqrt_rem_42_correct", "sqrt_rem_karatsuba_correct", "sqrt_rem_kernel_eq_spec", "sqrt_rem_mirrored_spec", "nth_root_mirrored_eq",
-            "fix_sqrt_error_sound", "fix_cbrt_error_sound", "prim_sqrt_rem_sound", "prim_cbrt_rem_sound", "prim_root_u8_total", "prim_root_u16_total", "prim_exact_of_total", "sqrt_rem_driver_spec", "gcd_ext_cofactors_fit_partial", "gcd_ext_prim_cofactor_bounds", "gcd_ext_b_fits_partial", "gcd_ext_b_fits"]]
+            "fix_sqrt_error_sound", "fix_cbrt_error_sound", "prim_sqrt_rem_sound", "prim_cbrt_rem_sound", "prim_root_u8_total", "prim_root_u16_total", "prim_exact_of_total", "sqrt_rem_driver_spec", "prim_root_u32_total", "prim_sqrt_u32_exact", "cbrt_karatsuba_step", "root_tables_regenerated", "gcd_ext_cofactors_fit_partial", "gcd_ext_prim_cofactor_bounds", "gcd_ext_b_fits_partial", "gcd_ext_b_fits"]]
+USES_GEN = True
 READY = True
